@@ -30,7 +30,7 @@ def arrived (es : List TEvent) : List Msg := es.filterMap (fun e => e.ev.msg?)
 
 def acceptedOf (td : Nat × Delivery) : Option (Nat × Nat) :=
   match td.2.msg? with
-  | some m => m.obs.map (fun v => (v, td.1))
+  | some m => m.notif.map (fun v => (v, td.1))
   | none => none
 
 /-- `(Observe value, arrival time)` of the notifications handed to the application, in order -/
@@ -56,11 +56,11 @@ theorem errbacks_append (a b : List Delivery) :
     accepted ((t, .responseExc k) :: l) = accepted l := by
   simp [accepted, List.filterMap_cons, acceptedOf, Delivery.msg?]
 theorem accepted_cons_response (t : Nat) (m : Msg) (l : List (Nat × Delivery)) :
-    accepted ((t, .response m) :: l) = (m.obs.map (fun v => (v, t))).toList ++ accepted l := by
-  cases h : m.obs <;> simp [accepted, acceptedOf, Delivery.msg?, h]
+    accepted ((t, .response m) :: l) = (m.notif.map (fun v => (v, t))).toList ++ accepted l := by
+  cases h : m.notif <;> simp [accepted, acceptedOf, Delivery.msg?, h]
 theorem accepted_cons_callback (t : Nat) (m : Msg) (l : List (Nat × Delivery)) :
-    accepted ((t, .callback m) :: l) = (m.obs.map (fun v => (v, t))).toList ++ accepted l := by
-  cases h : m.obs <;> simp [accepted, acceptedOf, Delivery.msg?, h]
+    accepted ((t, .callback m) :: l) = (m.notif.map (fun v => (v, t))).toList ++ accepted l := by
+  cases h : m.notif <;> simp [accepted, acceptedOf, Delivery.msg?, h]
 
 @[simp] theorem handedOver_nil : handedOver [] = [] := rfl
 @[simp] theorem handedOver_cons_response (m : Msg) (l : List Delivery) :
@@ -128,14 +128,25 @@ theorem deliveries_append (cfg : Cfg) (s : ObsState) (es es' : List TEvent) :
 
 /-- what one notification does while an observation is established -/
 theorem step_notification (cfg : Cfg) (v1 t1 t : Nat) (m : Msg) (v2 : Nat) (last : Bool)
-    (h : m.obs = some v2) :
+    (h : m.notif = some v2) :
     step cfg (.observing v1 t1) ⟨t, .message m last⟩ =
-      (if last then .ended else if fresher cfg.reset v1 t1 v2 t then .observing v2 t
+      (if last then .ended else if fresher cfg.reset v1 t1 v2 t then
+          (if m.cancels then .appCancelled else .observing v2 t)
         else .observing v1 t1,
        (if fresher cfg.reset v1 t1 v2 t then [.callback m] else []) ++
-       (if last then [.errback .observationCancelled] else [])) := by
+       (if last then
+          (if fresher cfg.reset v1 t1 v2 t && m.cancels then [] else [.errback .observationCancelled])
+        else [])) := by
   simp only [step, stepObserving, h]
-  cases last <;> simp
+  cases last <;> cases fresher cfg.reset v1 t1 v2 t <;> cases m.cancels <;> simp
+
+/-- what a response that is not a notification (no Observe option, or not a 2.xx code) does while
+an observation is established -/
+theorem step_final (cfg : Cfg) (v1 t1 t : Nat) (m : Msg) (last : Bool) (h : m.notif = none) :
+    step cfg (.observing v1 t1) ⟨t, .message m last⟩ =
+      (.ended, .callback m :: (if m.cancels then [] else [.errback .observationCancelled]) ++
+                 (if last then [] else [.stopInterest])) := by
+  simp only [step, stepObserving, h]
 
 -- states in which nothing is handed over any more ----------------------------------------------
 
@@ -230,9 +241,9 @@ theorem cancelledFirst_step (cfg : Cfg) (e : TEvent) :
   cases ev with
   | message m last =>
     cases last
-    · cases hv : m.obs <;>
+    · cases hv : m.notif <;>
         simp [step, stepCancelledFirst, hv, Quiet, Delivery.isSignal, accepted_cons_response]
-    · cases hv : m.obs <;>
+    · cases hv : m.notif <;>
         simp [step, stepCancelledFirst, Quiet, Delivery.isSignal, accepted_cons_response, hv]
   | exception k => simp [step, stepCancelledFirst, Quiet, Delivery.isSignal]
   | obsCancel => simp [step, stepCancelledFirst, Quiet]
